@@ -33,6 +33,34 @@ ASSUMPTIONS = [
 SPAN_ATTRS = {"table:number-columns-spanned", "table:number-rows-spanned"}
 
 
+def _canon_names(e: ast.AST, mapping: dict[str, str]) -> str:
+    """Source text of `e` with the locals named in `mapping` replaced by their role names (layout-free)."""
+    import copy
+    c = copy.deepcopy(e)
+    for x in ast.walk(c):
+        if isinstance(x, ast.Name) and x.id in mapping:
+            x.id = mapping[x.id]
+    return ast.unparse(c).replace(" ", "")
+
+
+def _coord_roles(fn: FuncInfo) -> dict[str, str]:
+    """local name -> role (x, y, z, t) from the unpacking of the converted coordinates; `start` = the (x, y) tuple"""
+    roles: dict[str, str] = {}
+    for n in walk_no_nested(fn.node):
+        if isinstance(n, ast.Assign) and isinstance(n.targets[0], ast.Tuple) and all(isinstance(e, ast.Name) for e in n.targets[0].elts) and isinstance(n.value, ast.Name):
+            names = [e.id for e in n.targets[0].elts]
+            if len(names) == 4:
+                roles.update(dict(zip(names, "xyzt")))
+            elif len(names) == 2:
+                for nm, r in zip(names, "xy"):
+                    roles.setdefault(nm, r)
+    for n in walk_no_nested(fn.node):
+        if isinstance(n, ast.Assign) and isinstance(n.targets[0], ast.Name) and isinstance(n.value, ast.Tuple) and len(n.value.elts) == 2 \
+                and [roles.get(getattr(e, "id", None)) for e in n.value.elts] == ["x", "y"]:
+            roles[n.targets[0].id] = "start"
+    return roles
+
+
 def r17abc(ctx):
     repo = ctx.repo
     ctx.rule("R17a", "set_span: the scan for an existing span dominates every write", floor=4)
@@ -47,11 +75,14 @@ def r17abc(ctx):
         ctx.report("R17a", f, f.node, "set_span does not call is_spanned()", "set_span no longer checks the requested area for an existing span before writing: "
                    "overlapping spans can be created")
         return
+    # the flag: a local set to False under the positive outcome of is_spanned(); the refusal: `return False` under a test that reads that flag
+    flag_sets = [n for n in walk_no_nested(f.node) if isinstance(n, ast.Assign) and isinstance(n.targets[0], ast.Name) and isinstance(n.value, ast.Constant) and n.value.value is False
+                 and any(any(x is scans[0] for x in ast.walk(t)) for t, pol in structural_guards(n, stop=f.node) if pol)]
+    flags = {n.targets[0].id for n in flag_sets}
     refuse = [n for n in walk_no_nested(f.node) if isinstance(n, ast.Return) and isinstance(n.value, ast.Constant) and n.value.value is False
-              and structural_guards(n, stop=f.node) and any("good" in ast.unparse(t) for t, _ in structural_guards(n, stop=f.node))]
-    flag_sets = [n for n in walk_no_nested(f.node) if isinstance(n, ast.Assign) and isinstance(n.targets[0], ast.Name) and n.targets[0].id == "good"
-                 and isinstance(n.value, ast.Constant) and n.value.value is False]
-    ok_scan = bool(refuse) and bool(flag_sets) and any(any(x is scans[0] for x in ast.walk(t)) for fs in flag_sets for t, pol in structural_guards(fs, stop=f.node) if pol)
+              and any(isinstance(x, ast.Name) and x.id in flags for t, _ in structural_guards(n, stop=f.node) for x in ast.walk(t))
+              and not enclosing_loops(n)]
+    ok_scan = bool(refuse) and bool(flag_sets)
     ctx.instance("R17a", f"{f.file}:{f.ident}", "is_spanned() positive ⇒ good = False ⇒ return False", ok=ok_scan, nontrivial=True)
     if not ok_scan:
         ctx.report("R17a", f, scans[0], "span scan does not refuse", "finding an already spanned cell in the area no longer makes set_span return False")
@@ -99,36 +130,58 @@ def r17abc(ctx):
     ctx.instance("R17c", f"{f.file}:set_span/del_span", f"tag pair {sorted({str(t) for t, _ in st})} ↔ {sorted({str(t) for t, _ in dt})}", ok=ok, nontrivial=True)
     if not ok:
         ctx.report("R17c", g, g.node, "tag pair", "set_span/del_span do not swap table:covered-table-cell and table:table-cell symmetrically")
-    ps, pd = sorted(p for _, p in st), sorted(p for _, p in dt)
+    def cells_role(fn, push):
+        """the matrix of edited copies = first argument of the final self.set_cells(…)"""
+        return push[0].args[0].id if len(push) == 1 and push[0].args and isinstance(push[0].args[0], ast.Name) else None
+
+    cs, cd = cells_role(f, sp), cells_role(g, dp)
+    ps = sorted(p.replace(cs, "cells") if cs else p for _, p in st)
+    pd = sorted(p.replace(cd, "cells") if cd else p for _, p in dt)
     ok = ps == pd == ["cells[0][1:]", "cells[1:]/*"]
     ctx.instance("R17c", f"{f.file}:set_span/del_span", f"covered cells = {ps} (set) == {pd} (del)", ok=ok, nontrivial=True)
     if not ok:
         ctx.report("R17c", g, g.node, f"index patterns {ps} vs {pd}", "the cells converted by set_span and restored by del_span are not the same set (all of the area except its first cell)")
     for fn, push in ((f, sp), (g, dp)):
-        ok = len(push) == 1 and ast.unparse(get_arg(push[0], 1, "coord") or ast.Constant(None)) == "start" and \
-            repo.fold(get_arg(push[0], 2, "clone"), fn.module) is False
+        roles = _coord_roles(fn)
+        coord = get_arg(push[0], 1, "coord") if len(push) == 1 else None
+        ok = len(push) == 1 and isinstance(coord, ast.Name) and roles.get(coord.id) == "start" and repo.fold(get_arg(push[0], 2, "clone"), fn.module) is False
         ctx.instance("R17c", f"{fn.file}:{fn.ident}", "ends with self.set_cells(cells, coord=start, clone=False)", ok=ok, nontrivial=True)
         if not ok:
             ctx.report("R17c", fn, fn.node, "final push", f"{fn.name} does not push the edited copies back with set_cells(cells, coord=start, clone=False)")
-    ext = {}
+    # extents written into the span attributes, traced to their definitions and expressed over the coordinate roles
+    roles = _coord_roles(f)
+
+    def def_of(fn, name):
+        ds = [n.value for n in walk_no_nested(fn.node) if isinstance(n, ast.Assign) and isinstance(n.targets[0], ast.Name) and n.targets[0].id == name]
+        return ds[0] if len(ds) == 1 else None
+
+    wrt = {}
     for n in walk_no_nested(f.node):
-        if isinstance(n, ast.Assign) and isinstance(n.targets[0], ast.Name) and n.targets[0].id in ("cols", "rows"):
-            ext[n.targets[0].id] = ast.unparse(n.value).replace(" ", "")
-    ok = ext == {"cols": "z-x+1", "rows": "t-y+1"}
-    ctx.instance("R17c", f"{f.file}:{f.ident}", f"extents {ext}", ok=ok, nontrivial=True)
+        if isinstance(n, ast.Call) and call_name(n) == "set_attribute" and len(n.args) == 2:
+            v = n.args[1]
+            inner = v.args[0] if isinstance(v, ast.Call) and call_name(v) == "str" and v.args else v
+            d = def_of(f, inner.id) if isinstance(inner, ast.Name) else inner
+            wrt[repo.fold(n.args[0], f.module)] = _canon_names(d, roles) if d is not None else "?"
+    ok = wrt.get("table:number-columns-spanned") == "z-x+1" and wrt.get("table:number-rows-spanned") == "t-y+1"
+    ctx.instance("R17c", f"{f.file}:{f.ident}", f"span attributes receive {wrt}", ok=ok, nontrivial=True)
     if not ok:
-        ctx.report("R17c", f, f.node, f"span extents {ext}", "the span extents are not (z - x + 1) columns by (t - y + 1) rows")
-    wrt = {repo.fold(n.args[0], f.module): ast.unparse(n.args[1]) for n in walk_no_nested(f.node) if isinstance(n, ast.Call) and call_name(n) == "set_attribute" and len(n.args) == 2}
-    ok = wrt.get("table:number-columns-spanned") == "str(cols)" and wrt.get("table:number-rows-spanned") == "str(rows)"
-    ctx.instance("R17c", f"{f.file}:{f.ident}", f"attribute values {wrt}", ok=ok, nontrivial=True)
-    if not ok:
-        ctx.report("R17c", f, f.node, f"span attribute values {wrt}", "columns-spanned / rows-spanned do not receive the column / row extents")
-    # del_span recomputes the area from the stored extents
-    area = {}
+        ctx.report("R17c", f, f.node, f"span attribute values {wrt}", "columns-spanned / rows-spanned do not receive (z - x + 1) columns and (t - y + 1) rows")
+    # del_span recomputes the area from the stored extents: get_cells((x, y, x + cols - 1, y + rows - 1))
+    droles = _coord_roles(g)
     for n in walk_no_nested(g.node):
-        if isinstance(n, ast.Assign) and isinstance(n.targets[0], ast.Name) and n.targets[0].id in ("z", "t"):
-            area[n.targets[0].id] = ast.unparse(n.value).replace(" ", "")
-    ok = area == {"z": "x+nb_cols-1", "t": "y+nb_rows-1"}
+        if isinstance(n, ast.Assign) and isinstance(n.targets[0], ast.Name) and isinstance(n.value, ast.Call) and call_name(n.value) == "get_attribute_integer" and n.value.args:
+            a0 = repo.fold(n.value.args[0], g.module)
+            if a0 == "table:number-columns-spanned":
+                droles[n.targets[0].id] = "nb_cols"
+            elif a0 == "table:number-rows-spanned":
+                droles[n.targets[0].id] = "nb_rows"
+    area = {}
+    gc = [n for n in walk_no_nested(g.node) if isinstance(n, ast.Call) and call_name(n) == "get_cells" and n.args and isinstance(n.args[0], ast.Tuple) and len(n.args[0].elts) == 4]
+    if gc:
+        for k, e in zip("xyzt", gc[0].args[0].elts):
+            d = def_of(g, e.id) if isinstance(e, ast.Name) and droles.get(e.id) not in ("x", "y") else e
+            area[k] = _canon_names(d, droles) if d is not None else "?"
+    ok = area == {"x": "x", "y": "y", "z": "x+nb_cols-1", "t": "y+nb_rows-1"}
     ctx.instance("R17c", f"{g.file}:{g.ident}", f"area recomputed as {area}", ok=ok, nontrivial=True)
     if not ok:
         ctx.report("R17c", g, g.node, f"del_span area {area}", "del_span does not recompute the spanned area as (x + cols - 1, y + rows - 1)")
